@@ -57,6 +57,14 @@ def gen_cb(rng: Any, ids: list[int], depth: int, allow_service: bool, p_raise: f
         cb["call_args"] = rng.choice(["none", "none", "other_ctx", "method_other_ctx", "kw_other_ctx"])
         # the generator yields once (the usual case), returns or raises before its yield (nothing to tear down), or yields twice
         cb["gen_shape"] = rng.choice(["normal"] * 5 + ["no_yield", "raises_before_yield", "yields_twice"])
+        # the part before the yield may itself register teardown callbacks (a resource with a teardown, a plain callback):
+        # they were registered *before* the generator's own second half and therefore run after it
+        cb["setup_children"] = []
+        if depth < 2 and rng.random() < 0.35:
+            for _ in range(rng.randint(1, 2)):
+                ch = gen_cb(rng, ids, depth + 1, False, p_raise)
+                if ch["route"] != "ctxteardown":
+                    cb["setup_children"].append(ch)
     if kind != "sync":
         for _ in range(rng.randint(0, 2)):
             cb["steps"].append(rng.choice([["yield", rng.randint(1, 3)], ["sleep", rng.choice([0.5, 1, 2])]]))
@@ -116,6 +124,8 @@ def all_cbs(prog: dict[str, Any]) -> list[dict[str, Any]]:
 
     def rec(cb: dict[str, Any]) -> None:
         out.append(cb)
+        for c in cb.get("setup_children", []):
+            rec(c)
         for c in cb["children"]:
             rec(c)
 
@@ -148,6 +158,7 @@ class Run:
         self.unrelated_ctx: Any = None
         self.other_ctx_calls = 0
         self.gen_shapes: dict[str, int] = {}
+        self.setup_registrations = 0
 
     # ---- probes -------------------------------------------------------------------------
 
@@ -315,6 +326,9 @@ class Run:
             def make_agen() -> Any:
                 async def agen(*args: Any, **kwargs: Any) -> Any:
                     run.trace.log("setup", cid)
+                    for ch in cb.get("setup_children", []):
+                        await run.register(ch, during_teardown)
+                        run.setup_registrations += 1
                     if shape == "no_yield":
                         return  # decides at run time that there is nothing to clean up: nothing is registered
                     if shape == "raises_before_yield":
@@ -714,6 +728,8 @@ def features(run: Run) -> dict[str, int]:
         inc("ctxteardown_called_with_another_context", run.other_ctx_calls)
     for shape, n in run.gen_shapes.items():
         inc(f"ctxteardown_generator_{shape}", n)
+    if run.setup_registrations:
+        inc("callbacks_registered_by_a_ctxteardown_setup_part", run.setup_registrations)
     if len(raised_ids) >= 2:
         inc("programs_with_2plus_raising")
     if any(byid[cid]["raises"] == "RERAISE" and cid in run.raised for cid in order):
